@@ -16,7 +16,7 @@ emoji by a UTF-16 based watcher holds a LONE surrogate; Python, JSON (ASCII esca
   low: that pair is outside the domain, notes/agents/JSON.md), astral code points, NUL, U+2028 / U+2029, and data
   dicts built from them (as values, as keys, nested).
 Everything here was first established on the UNCHANGED tree to round-trip on memory, sqlite and peewee (single
-insert, bulk insert, replace, replace_last, bucket data): /tmp/fix6-data/probe_roundtrip.py, notes/agents/C01.md."""
+insert, bulk insert, replace, replace_last, bucket data): notes/probes/fix6_roundtrip.py, notes/agents/C01.md."""
 import collections
 
 ODict = collections.OrderedDict
